@@ -183,6 +183,42 @@ def build(S, tier):
                 lem = [F_sqrt(R(at.masses.get((a,))) * (T * kB)) * F_sqrt(R(at.masses.get((a,))) * (T * kB)) == R(at.masses.get((a,))) * (T * kB) for a in range(at.k)]
                 S.prove_rational(f"{MB}#ensures.forced_kinetic_temperature@{i}", [(2 * ke1 / dof * (r + z3.RealVal("1/1000000000000000")), T * kB * r)], hyps=p.pc + lem + [r > 0])
 
+    # forced refresh on atoms whose constraint removes momenta (FixAtoms): the temperature is that of the momenta the atoms
+    # actually keep, over the degrees of freedom that remain
+    def run_mb_fixed(I):
+        from pyvc.models.explicit_atoms import AtomsExplicit, ExplicitConstraint
+        atoms = AtomsExplicit(I, 3, constraints=[ExplicitConstraint("FixAtoms", indices=[0])])
+        T = I.path.fresh("T")
+        I.path.assume(T.t > 0)
+        rng = RngModel()
+        ctx = mk_ctx(I, atoms, T, rng)
+        I.call(I.get_function(MB), [ctx], {"forced": True})
+        return dict(atoms=atoms, T=T, rng=rng)
+
+    for i, p in enumerate(S.explore(run_mb_fixed, f"{MB}[forced, FixAtoms]")):
+        S.adopt(p, prefix="[forced, FixAtoms]")
+        if p.status != "return":
+            if p.status == "raise":
+                S.prove(f"{MB}#noraise[forced, FixAtoms]@{i}", False, kind="noraise", why=f"raises {p.exc!r}")
+            continue
+        v = p.value
+        at, rng, T = v["atoms"], v["rng"], v["T"].t
+        normal = [d for d in rng.draws if d[0] == "standard_normal"]
+        if len(normal) != 1 or not isinstance(normal[0][2], Tensor) or normal[0][2].shape != (3, 3):
+            S.prove(f"{MB}#ensures.one_standard_normal_draw_per_component[forced, FixAtoms]@{i}", False, kind="ensures", why=str([d[0] for d in rng.draws]))
+            continue
+        z = normal[0][2]
+        m = [R(at.masses.get((a,))) for a in range(3)]
+        sq = [F_sqrt(m[a] * (T * kB)) for a in range(3)]
+        lem = [sq[a] * sq[a] == m[a] * (T * kB) for a in range(3)]
+        free = (1, 2)                                                   # atom 0 is fixed: its momentum is removed
+        dof = 6
+        r = sum((R(z.get((a, d))) * sq[a]) ** 2 / (2 * m[a]) for a in free for d in range(3)) * 2 / dof
+        ke1 = sum(R(at.momenta.get((a, d))) ** 2 / (2 * m[a]) for a in range(3) for d in range(3))
+        S.prove_rational(f"{MB}#ensures.forced_kinetic_temperature_of_the_unconstrained_atoms[FixAtoms]@{i}",
+                         [(2 * ke1 / dof * (r + z3.RealVal("1/1000000000000000")), T * kB * r)], hyps=p.pc + lem + [r > 0])
+        S.prove_rational(f"{MB}#ensures.fixed_atom_gets_no_momentum[FixAtoms]@{i}", [(R(at.momenta.get((0, d))), z3.RealVal(0)) for d in range(3)], hyps=p.pc)
+
     # ------------------------------------------------------------------ reference kinetic energy order
     HM = "quansino.moves.displacement.HamiltonianDisplacementMove"
 
